@@ -474,15 +474,46 @@ def helper_relation(owner, other, other_name):
 # ---------------------------------------------------------------------------------------------
 
 
+def apply_mut(obj, scn, mut):
+    """state-changing maintenance call (the same on the inspected object and on its twin): leaves e.g. the
+    cursor of an indicator on an older candle.  mut = [op, member index, index]"""
+    op, mem, k = mut
+    if scn.get("target") == "hexital":
+        names = [member_name(m) for m in scn["members"]]
+        name = names[mem % len(names)]
+        ind = obj.indicator(name)
+        n = len(ind.candles) if ind is not None else 0
+        if op == "calculate_index" and n:
+            obj.calculate_index(name, k % n if k >= 0 else -1 - ((-k - 1) % n))
+        elif op == "purge":
+            obj.purge(name)
+        elif op == "recalculate":
+            obj.recalculate(name)
+        return
+    n = len(obj.candles)
+    if op == "calculate_index" and n:
+        obj.calculate_index(k % n if k >= 0 else -1 - ((-k - 1) % n))
+    elif op == "purge":
+        obj.purge()
+    elif op == "recalculate":
+        obj.recalculate()
+
+
 def _drive(obj, scn, on_step):
     """calculate after construction, then append chunk by chunk (fresh Candle objects every time)"""
     stream = scn["stream"]
-    obj.calculate()
+    muts = scn.get("muts") or []
+    if not scn.get("lazy"):  # C19 also inspects objects that were given candles but have not calculated yet
+        obj.calculate()
+    for m in (muts[0] if muts else []):
+        apply_mut(obj, scn, m)
     r = on_step(0, scn.get("init", len(stream)))
     if r:
         return r
     for j, (a, b) in enumerate(steps_of(scn)[1:]):
         obj.append(cm.mk_candles(stream[a:b]))
+        for m in (muts[j + 1] if j + 1 < len(muts) else []):
+            apply_mut(obj, scn, m)
         r = on_step(j + 1, b)
         if r:
             return r
@@ -1285,11 +1316,21 @@ def gen_c19_readonly(rng, size=40):
     program[-1] = program[-1] or [gen_acc(rng)]
     scn = {"check": "c19.readonly", "target": target, "hx": cfg, "members": members, "keep_members": True, "stream": stream,
            "init": init, "chunks": chunks, "program": program}
+    # "in any state": maintenance calls (same on the twin) leave the cursor on an older candle / readings purged; lazy = no
+    # calculate() after construction
+    if rng.random() < 0.5:
+        scn["muts"] = [[[rng.choice(["calculate_index", "calculate_index", "calculate_index", "purge", "recalculate"]), rng.randrange(4),
+                         rng.choice([0, 1, 2, 3, 5, 8, -1, -2, -3, -6])]] if rng.random() < 0.6 else [] for _ in range(1 + len(chunks))]
+    if rng.random() < 0.15:
+        scn["lazy"] = True
     meta = {"target": target, "price": smeta["price"], "schedule": shape, "members": len(members),
-            "timeframes": len({m["tf"] for m in members if m["tf"]}) + 1, "ha": cfg["ha"]}
+            "timeframes": len({m["tf"] for m in members if m["tf"]}) + 1, "ha": cfg["ha"], "lazy": bool(scn.get("lazy"))}
     for step in program:
         for acc in step:
             meta[f"acc:{acc_label(target, acc)}"] = True
+    for step in scn.get("muts") or []:
+        for m in step:
+            meta[f"mut:{m[0]}"] = True
     return scn, meta
 
 
